@@ -105,6 +105,9 @@ where
     fn call(&mut self, req: Req) -> Self::Future {
         let start = Instant::now();
         self.in_flight.fetch_add(1, Ordering::Relaxed);
+        // Released when the call ends in any way: completion, error, panic or drop - and also
+        // when the inner service panics inside `call` below, before any future exists
+        let in_flight = InFlightGuard(Arc::clone(&self.in_flight));
 
         let future = self.inner.call(req);
 
@@ -120,8 +123,6 @@ where
         }
 
         let algorithm = Arc::clone(&self.algorithm);
-        // Released when the call ends in any way: completion, error, panic or drop
-        let in_flight = InFlightGuard(Arc::clone(&self.in_flight));
         let semaphore = Arc::clone(&self.semaphore);
         let current_limit = Arc::clone(&self.current_limit);
 
